@@ -98,10 +98,6 @@ theorem getIPPortMembers_v4 (s : IPSets) (hs : s.ipportV4) : ∀ (ids : List Str
         · exact hs id m1 hg a ha
         · exact ih m2 hr a ha
 
-/-- A proto rule whose action is pass / next-tier carries no port criteria (and is not a Service rule). -/
-def Rule.passPortFree (r : Rule) : Prop :=
-  actionOf r.action = some .pass → r.srcPorts = [] ∧ r.dstPorts = [] ∧ r.dstIpPortSets = []
-
 theorem withProto_fields (b : HRule) (ps : Option ProtoSpec) :
     (withProto b ps).action = b.action ∧ (withProto b ps).inbound = b.inbound := by
   cases ps with
@@ -113,8 +109,7 @@ theorem protoRule_ok_shape (s : IPSets) (pid : String) (r : Rule) (d : Bool) (n 
     (h : protoRuleToHnsRules s pid r d n = .ok hs') :
     ∃ act, actionOf r.action = some act ∧
       ((r.dstIpPortSets.isEmpty = false ∧ ∃ ms, getIPPortMembers s r.dstIpPortSets = some ms ∧
-          hs' = (groupIPPorts ms).zipIdx.map fun (x : (Nat × Nat × List Addr) × Nat) =>
-            { baseRule act d with rAddrs := x.1.2.2, rPorts := [⟨x.1.2.1, x.1.2.1⟩], proto := x.1.1, id := mkId pid r.ruleId x.2 }) ∨
+          ∀ h ∈ hs', h.inbound = d ∧ h.lAddrs = [] ∧ ∃ g ∈ groupIPPorts ms, h.rAddrs = g.2.2) ∨
        (r.dstIpPortSets.isEmpty = true ∧ ∃ srcA dstA,
           sideAddrs s (filterNets r.srcNet).1 r.srcSets = .ok srcA ∧
           sideAddrs s (filterNets r.dstNet).1 r.dstSets = .ok dstA ∧
@@ -157,7 +152,13 @@ theorem protoRule_ok_shape (s : IPSets) (pid : String) (r : Rule) (d : Bool) (n 
                   | none => simp [hm] at h
                   | some ms =>
                     simp only [hm, Bool.false_eq_true, if_false, Except.ok.injEq] at h
-                    exact ⟨rfl, ms, rfl, h.symm⟩
+                    refine ⟨rfl, ms, rfl, ?_⟩
+                    intro x hx
+                    rw [← h] at hx
+                    obtain ⟨c, hc, i, rfl⟩ := mem_zipIdx_map_ex _ _ 0 x hx
+                    obtain ⟨g, hg, hc⟩ := List.mem_flatMap.1 hc
+                    obtain ⟨sp, _, rfl⟩ := List.mem_map.1 hc
+                    exact ⟨rfl, rfl, g, (List.mem_filter.1 hg).1, rfl⟩
                 | true =>
                   right
                   simp only [hipp, Bool.not_true, Bool.false_eq_true, if_false] at h
@@ -174,7 +175,7 @@ theorem protoRule_ok_shape (s : IPSets) (pid : String) (r : Rule) (d : Bool) (n 
                       cases d <;> rfl
 
 /-- Every HNS rule generated for a proto rule satisfies what the flattener needs. -/
-theorem hr_ruleOK (s : IPSets) (hs : s.wf) (hv : s.ipportV4) (r : Rule) (hpf : r.passPortFree) (d : Bool)
+theorem hr_ruleOK (s : IPSets) (hs : s.wf) (hv : s.ipportV4) (r : Rule) (d : Bool)
     (n : Nat) (hn : 0 < n) (pid : String) : ∀ h ∈ hr s pid r d n, RuleOK d h := by
   intro h hh
   unfold hr at hh
@@ -183,23 +184,19 @@ theorem hr_ruleOK (s : IPSets) (hs : s.wf) (hv : s.ipportV4) (r : Rule) (hpf : r
   | ok hs' =>
     simp only [hc] at hh
     obtain ⟨act, hact, hshape⟩ := protoRule_ok_shape s pid r d n hs' hc
-    rcases hshape with ⟨hne, ms, hms, rfl⟩ | ⟨hemp, srcA, dstA, hS, hD, rfl⟩
-    · obtain ⟨g, hg, i, rfl⟩ := mem_zipIdx_map_ex _ _ 0 h hh
+    rcases hshape with ⟨hne, ms, hms, hall⟩ | ⟨hemp, srcA, dstA, hS, hD, rfl⟩
+    · obtain ⟨hdir, hl, g, hg, hra⟩ := hall h hh
       obtain ⟨_, _, hmem⟩ := groupIPPorts_spec ms
-      refine ⟨rfl, by intro a ha; simp [baseRule] at ha, ?_, ?_⟩
-      · intro a ha
-        obtain ⟨m, hm, _, _, e3⟩ := (hmem g.1 g.2.1 a).1 ⟨g, hg, rfl, rfl, ha⟩
-        rw [← e3]; exact getIPPortMembers_v4 s hv _ ms hms m hm
-      · intro hp
-        have : act = .pass := hp
-        subst this
-        have := (hpf hact).2.2
-        simp [this] at hne
+      refine ⟨hdir, by intro a ha; rw [hl] at ha; simp at ha, ?_⟩
+      intro a ha
+      rw [hra] at ha
+      obtain ⟨m, hm, _, _, e3⟩ := (hmem g.1 g.2.1 a).1 ⟨g, hg, rfl, rfl, ha⟩
+      rw [← e3]; exact getIPPortMembers_v4 s hv _ ms hms m hm
     · obtain ⟨h1, h2, h3, h4, h5, h6⟩ := expand_mem _ _ _ _ _ _ _ h hh
       have hvS := sideAddrs_v4 s hs _ (filterNets_sem r.srcNet 0).2.2 r.srcSets srcA hS
       have hvD := sideAddrs_v4 s hs _ (filterNets_sem r.dstNet 0).2.2 r.dstSets dstA hD
       have hfields := withProto_fields (baseRule act d) r.proto
-      refine ⟨by rw [h2, hfields.2]; rfl, ?_, ?_, ?_⟩
+      refine ⟨by rw [h2, hfields.2]; rfl, ?_, ?_⟩
       · intro a ha
         have := splitList_mem _ n hn _ h3 a ha
         cases d
@@ -210,15 +207,6 @@ theorem hr_ruleOK (s : IPSets) (hs : s.wf) (hv : s.ipportV4) (r : Rule) (hpf : r
         cases d
         · exact hvD a this
         · exact hvS a this
-      · intro hp
-        rw [h1, hfields.1] at hp
-        have : act = .pass := hp
-        subst this
-        obtain ⟨p1, p2, _⟩ := hpf hact
-        rw [p1, p2] at h4 h6
-        simp only [ite_self, splitList_nil, List.mem_singleton] at h4 h6
-        exact ⟨h4, h6⟩
-
 
 theorem bump_mem (ms : List HRule) : ∀ (cur : Nat) (last : Option Action), ∀ r ∈ (bump cur last ms).1,
     ∃ m ∈ ms, r = { m with prio := r.prio } := by
@@ -234,14 +222,10 @@ theorem bump_mem (ms : List HRule) : ∀ (cur : Nat) (last : Option Action), ∀
       exact ⟨x, by simp [hx], he⟩
 
 theorem ruleOK_prio (d : Bool) (m : HRule) (k : Nat) (h : RuleOK d m) : RuleOK d { m with prio := k } :=
-  ⟨h.dir, h.v4l, h.v4r, h.passPortFree⟩
-
-structure PolicySet.passPortFree (ps : PolicySet) : Prop where
-  inb : ∀ r ∈ ps.inRules, r.passPortFree
-  outb : ∀ r ∈ ps.outRules, r.passPortFree
+  ⟨h.dir, h.v4l, h.v4r⟩
 
 theorem gather_ruleOK (s : IPSets) (hs : s.wf) (hv : s.ipportV4) (n : Nat) (hn : 0 < n) (d : Bool)
-    (sets : List (String × PolicySet)) (hpf : ∀ x ∈ sets, x.2.passPortFree) :
+    (sets : List (String × PolicySet)) :
     ∀ h ∈ gatherMembers d (sets.map fun x => some (x.2.members s x.1 n)), RuleOK d h := by
   induction sets with
   | nil => intro h hh; simp [gatherMembers] at hh
@@ -250,23 +234,22 @@ theorem gather_ruleOK (s : IPSets) (hs : s.wf) (hv : s.ipportV4) (n : Nat) (hn :
     simp only [List.map_cons, gatherMembers, List.mem_append, List.mem_filter] at hh
     rcases hh with ⟨hm, hd⟩ | hh
     · have hd' : h.inbound = d := by simpa using hd
-      have hx := hpf x (by simp)
       unfold PolicySet.members at hm
       rw [protoRules_eq, protoRules_eq, List.mem_append, List.mem_flatMap, List.mem_flatMap] at hm
       rcases hm with ⟨r, hr, hm⟩ | ⟨r, hr, hm⟩
-      · have := hr_ruleOK s hs hv r (hx.inb r hr) true n hn x.1 h hm
+      · have := hr_ruleOK s hs hv r true n hn x.1 h hm
         have e : d = true := by rw [← hd', this.dir]
         subst e; exact this
-      · have := hr_ruleOK s hs hv r (hx.outb r hr) false n hn x.1 h hm
+      · have := hr_ruleOK s hs hv r false n hn x.1 h hm
         have e : d = false := by rw [← hd', this.dir]
         subst e; exact this
-    · exact ih (fun y hy => hpf y (by simp [hy])) h hh
+    · exact ih h hh
 
 theorem eotRule_ok (d eot : Bool) (k : Nat) : RuleOK d (eotRule d eot k) :=
-  ⟨rfl, by intro a ha; simp [eotRule] at ha, by intro a ha; simp [eotRule] at ha, fun _ => ⟨rfl, rfl⟩⟩
+  ⟨rfl, by intro a ha; simp [eotRule] at ha, by intro a ha; simp [eotRule] at ha⟩
 
 theorem tierOK_generated (s : IPSets) (hs : s.wf) (hv : s.ipportV4) (n : Nat) (hn : 0 < n) (d eot : Bool)
-    (sets : List (String × PolicySet)) (hpf : ∀ x ∈ sets, x.2.passPortFree) :
+    (sets : List (String × PolicySet)) :
     TierOK d (getPolicySetRules (sets.map fun x => some (x.2.members s x.1 n)) d eot) := by
   intro h hh
   unfold getPolicySetRules at hh
@@ -279,7 +262,7 @@ theorem tierOK_generated (s : IPSets) (hs : s.wf) (hv : s.ipportV4) (n : Nat) (h
         rw [hb]; exact hh
       obtain ⟨m, hm, he⟩ := bump_mem _ _ _ h this
       rw [he]
-      exact ruleOK_prio d m _ (gather_ruleOK s hs hv n hn d sets hpf m hm)
+      exact ruleOK_prio d m _ (gather_ruleOK s hs hv n hn d sets m hm)
     · exact eotRule_ok d eot _
 
 /-- The first-match reading of one generated tier is the tier's policy verdict. -/
